@@ -203,6 +203,16 @@ def run_max_count(ctx, n):
                     ctx.violation("rg -c -m N does not count exactly the first N matching lines",
                                   dict(kind="cli-m-count", data=repr(data), flags=flags + extra, N=N, pattern=pat,
                                        got=repr(cc.stdout[:200]), expected=want_c))
+            if N > 0:
+                # the JSON printer under the same limit: exactly min(N, nm) match messages
+                pj = subprocess.run(base + ["--json", "-m", str(N), f], stdin=subprocess.DEVNULL, stdout=subprocess.PIPE, stderr=subprocess.PIPE)
+                runs += 1
+                nj = sum(1 for x in pj.stdout.split(b"\n") if x.startswith(b'{"type":"match"'))
+                # lines inside the trailing context window of the N-th match that match themselves are shown as matches
+                want_j = nm if nm < N else len([l for l in match_lnums if l <= match_lnums[N - 1] + a])
+                if nj != want_j:
+                    ctx.violation("rg --json -m N does not report exactly the first N matching lines",
+                                  dict(kind="cli-m-json", data=repr(data), flags=flags, N=N, pattern=pat, got=nj, expected=want_j))
             if "-v" not in flags and N > 0:
                 oo = subprocess.run([vlib.RG, "--no-config", "--color", "never", "--no-heading", "-I", "-n", "-o", "-e", pat, f],
                                     stdin=subprocess.DEVNULL, stdout=subprocess.PIPE, stderr=subprocess.PIPE)
@@ -251,6 +261,7 @@ def run_closure_sinks(ctx, n):
     full = vlib.code(301, [sg.case_val(c) for c in cases])
     for c, (which, k), line, o, f in zip(cases, meta, lines, co, full):
         if not o.startswith("(") or not f.startswith("("):
+            ctx.violation("harness failure in the closure-sink case: %s / %s" % (o[:80], f[:80]), dict(kind=1601, line=line), nfi=True)
             continue
         st, seen = parse_val(o)
         evs = parse_val(f)[1]
